@@ -177,7 +177,7 @@ def random_archive(rng, nmax=6, with_compressed=True, allow_bad=True, with_mac=T
             if rng.random() < 0.5:
                 dirs = [x for x in dirs if p.startswith(x.rstrip(b"/")) or x == b""] + [p + b"/"]
         elif q < 0.34:
-            tgt = rng.choice([b"f", b"a/b", b"../x", b"/etc/passwd", b"..", b"x/../y", b".",
+            tgt = rng.choice([b"f", b"a/b", b"../x", b"/etc/passwd", b"..", b"x/../y", b"."] * 3 + [     # (the plain shapes stay the most frequent)
                               # the shapes next to "a component that is '..'": two-character components, components that begin or end with two dots,
                               # '..' last, before a final '/', after an empty component
                               b"ab/c", b"a/bc", b"..a/b", b"a/..b", b"a../b", b".../x", b"ab", b"..a", b"x/..", b"a/../", b"..//x", b"./.."])
